@@ -173,6 +173,7 @@ where
         AnySpec::Wo(s) => go!(s, stateright::semantics::write_once_register::WORegister<u8>),
         AnySpec::Vec(s) => go!(s, Vec<u8>),
         AnySpec::Table(s) => go!(s, TableSpec),
+        AnySpec::Pool(s) => go!(s, Pool),
     }
 }
 
@@ -195,7 +196,7 @@ impl SubCheck for Lin {
         dispatch::<()>(c, true, cov, "c08")
     }
     fn mandatory(&self) -> Vec<&'static str> {
-        vec!["consistent", "inconsistent", "sequentially_consistent_but_not_linearizable", "in_flight_needed", "ill_formed", "ill_formed_double_invocation_through_on_invret", "has_in_flight", "spec_register", "spec_write_once_register", "spec_vec", "spec_generated_table"]
+        vec!["consistent", "inconsistent", "sequentially_consistent_but_not_linearizable", "in_flight_needed", "ill_formed", "ill_formed_double_invocation_through_on_invret", "has_in_flight", "spec_register", "spec_write_once_register", "spec_vec", "spec_generated_table", "spec_nondeterministic_pool"]
     }
 }
 
